@@ -73,6 +73,11 @@ def call_patterns(k, nparams, tier):
     G2 = lambda nm, m: ("stmt", nm, [V("i")], [], [m], "none")
     loopsub = ("stmt", "Sub", [] if nparams else None, ([("x", V("i"))] + ([("y", N("2"))] if nparams >= 2 else [])) if nparams else [], [B("+", V("i"), N(j)) for j in range(k)], "sq" if k > 1 else "none")
     pats.append([("for", "int", "i", ("range", 1, 3, None), [G2("Pre", N("0")), loopsub, G2("Post", V("i"))])])
+    # a loop that applies the subroutine several times to FIXED modes and arguments (the call does not mention the loop
+    # variable): alone in the body, between ordinary operations that do / do not mention it, and over a list of values
+    pats.append([("for", "int", "i", ("range", 0, 3, None), [call("Sub", nparams, a)])])
+    pats.append([("for", "int", "i", ("range", 0, 2, None), [G2("Pre", N("0")), call("Sub", nparams, c), ("stmt", "Fix", [N("1")], [], [N("3")], "none")]), call("Sub", nparams, b)])
+    pats.append([("for", "float", "y", ("list", [N("0.5"), N("1.5")], "sq"), [call("Sub", nparams, b, ("7", "0.5")), call("Sub", nparams, a)])])
     if k == 1:
         pats.append([("for", "int", "i", ("range", 0, 3, None), [call("Sub", nparams, [V("i")])])])
         pats.append([("decl", "int", "n", N("6")), call("Sub", nparams, [B("+", V("n"), N("1"))]), call("Sub", nparams, [V("n")])])
